@@ -2,7 +2,7 @@ from __future__ import annotations
 
 from typing import Callable
 
-from ._type_qualifier import Port, Generic
+from ._type_qualifier import Port, Generic, TypeQualifier
 from ._collect_ast_and_scope import FunctionDefinition, InstantiatedFunction
 from cohdl.utility.source_location import SourceLocation
 from ._intrinsic import _intrinsic, _intrinsic_replacement, _IntrinsicInlineEntity
@@ -288,6 +288,13 @@ class Entity(Block):
                     raise AssertionError(
                         f"assignment to port '{name}' failed (src={value}, target={info.ports[name]})"
                     )
+
+                if isinstance(value, TypeQualifier):
+                    # a port map cannot convert between types,
+                    # the connected object must match the port exactly
+                    assert (
+                        value.type is info.ports[name].type
+                    ), f"type of port '{name}' ({info.ports[name].type}) does not match the connected object ({value.type})"
 
                 self._cohdl_port_definitions[name] = value
             elif name in info.generics:
